@@ -15,6 +15,7 @@ import (
 	"net/http/httptest"
 	"os"
 	"path/filepath"
+	"reflect"
 	"sort"
 	"strings"
 	"time"
@@ -86,11 +87,76 @@ type Outcome struct {
 	Subject  string `json:"subject,omitempty"`  // JSON of the subject (authenticators)
 	Outputs  string `json:"outputs,omitempty"`  // JSON of ctx.Outputs()
 	Upstream string `json:"upstream,omitempty"` // JSON of the upstream headers (JWTs normalised)
+	// Types is the shape of subject attributes and pipeline outputs as later expressions / templates see it
+	// (kinds of the leaves: a float64 is not a json.Number, which is a string; an int is not a float64)
+	Types string `json:"types,omitempty"`
+	// Notes holds further observations of the harness which must not depend on the cache either
+	Notes string `json:"notes,omitempty"`
 }
 
 // Comparable is the part of an outcome that must not depend on whether a cache is used.
 func (o Outcome) Comparable() string {
-	return o.Err + "\x00" + o.Subject + "\x00" + o.Outputs + "\x00" + o.Upstream
+	return o.Err + "\x00" + o.Subject + "\x00" + o.Outputs + "\x00" + o.Upstream + "\x00" + o.Types + "\x00" + o.Notes
+}
+
+// Shape renders the kinds of the values of a decoded document: maps with sorted keys, lists element-wise, leaves by
+// their reflect.Kind. Two documents with equal JSON renderings but different shapes are told apart by CEL expressions
+// and templates ("no such overload" for a string where a number is expected).
+func Shape(v any) string {
+	var sb strings.Builder
+	shape(&sb, reflect.ValueOf(v), 0)
+	return sb.String()
+}
+
+func shape(sb *strings.Builder, v reflect.Value, depth int) {
+	for v.IsValid() && (v.Kind() == reflect.Interface || v.Kind() == reflect.Pointer) {
+		if v.IsNil() {
+			sb.WriteString("nil")
+			return
+		}
+		v = v.Elem()
+	}
+	if !v.IsValid() {
+		sb.WriteString("nil")
+		return
+	}
+	if depth > 12 {
+		sb.WriteString("...")
+		return
+	}
+	switch v.Kind() {
+	case reflect.Map:
+		keys := make([]string, 0, v.Len())
+		vals := map[string]reflect.Value{}
+		for it := v.MapRange(); it.Next(); {
+			k := fmt.Sprint(it.Key().Interface())
+			keys = append(keys, k)
+			vals[k] = it.Value()
+		}
+		sort.Strings(keys)
+		sb.WriteString("{")
+		for i, k := range keys {
+			if i > 0 {
+				sb.WriteString(",")
+			}
+			sb.WriteString(k + ":")
+			shape(sb, vals[k], depth+1)
+		}
+		sb.WriteString("}")
+	case reflect.Slice, reflect.Array:
+		sb.WriteString("[")
+		for i := 0; i < v.Len(); i++ {
+			if i > 0 {
+				sb.WriteString(",")
+			}
+			shape(sb, v.Index(i), depth+1)
+		}
+		sb.WriteString("]")
+	case reflect.Struct:
+		sb.WriteString("struct")
+	default:
+		sb.WriteString(v.Kind().String())
+	}
 }
 
 // ErrKind classifies an error by heimdall's error kinds.
@@ -130,9 +196,13 @@ func Capture(ctx *requestcontext.RequestContext, sub *subject.Subject, err error
 		b, _ := json.Marshal(sub) // encoding/json: sorted map keys
 		o.Subject = string(b)
 	}
+	if sub != nil && len(sub.Attributes) > 0 {
+		o.Types = "subject:" + Shape(sub.Attributes)
+	}
 	if out := ctx.Outputs(); len(out) > 0 {
 		b, _ := json.Marshal(out)
 		o.Outputs = string(b)
+		o.Types += "outputs:" + Shape(out)
 	}
 	if h := ctx.UpstreamHeaders(); len(h) > 0 {
 		norm := map[string][]string{}
@@ -147,8 +217,8 @@ func Capture(ctx *requestcontext.RequestContext, sub *subject.Subject, err error
 	return o
 }
 
-// NormaliseJWT replaces a "<scheme> <jwt>" header value by its claims without the per-issuance
-// claims (iat, nbf, exp, jti), so that two tokens issued for the same input compare equal.
+// NormaliseJWT replaces a "<scheme> <jwt>" header value by its JOSE header (alg, kid, typ, ...) and its claims without
+// the per-issuance claims (iat, nbf, exp, jti), so that two tokens issued for the same input by the same signer compare equal.
 func NormaliseJWT(v string) string {
 	scheme, tok, ok := strings.Cut(v, " ")
 	if !ok {
@@ -162,7 +232,28 @@ func NormaliseJWT(v string) string {
 		delete(claims, k)
 	}
 	b, _ := json.Marshal(claims)
-	return scheme + " jwt:" + string(b)
+	hb := []byte("{}")
+	if hdr, ok := JWTHeader(tok); ok {
+		hb, _ = json.Marshal(hdr)
+	}
+	return scheme + " jwt:" + string(hb) + "." + string(b)
+}
+
+// JWTHeader decodes the protected header of a compact JWS without verifying it.
+func JWTHeader(tok string) (map[string]any, bool) {
+	parts := strings.Split(tok, ".")
+	if len(parts) != 3 {
+		return nil, false
+	}
+	b, err := base64.RawURLEncoding.DecodeString(parts[0])
+	if err != nil {
+		return nil, false
+	}
+	var m map[string]any
+	if json.Unmarshal(b, &m) != nil {
+		return nil, false
+	}
+	return m, true
 }
 
 // JWTClaims decodes the payload of a compact JWS without verifying it.
